@@ -239,4 +239,167 @@ theorem stepCharRef_db (o : Opts) (m : Mach) (inp : Str) (cr : CharRefSt) (m' : 
 
 
 
+theorem transChar_discardBom (o : Opts) (m : Mach) (c : Char) :
+    (transChar o m c).1.discardBom = m.discardBom := by table_fields
+theorem transSet_discardBom (m : Mach) (r : SetRes) : (transSet m r).1.discardBom = m.discardBom := by
+  unfold transSet; split <;> (repeat' split) <;> simp
+
+theorem popExceptFrom_db (o : Opts) (S : List Char) (m m1 : Mach) (inp i1 : Str) (r : Option SetRes)
+    (h : popExceptFrom o S m inp = (r, m1, i1)) : m1.discardBom = m.discardBom := by
+  unfold popExceptFrom at h
+  split at h
+  · cases hg : getChar o m inp with
+    | mk c rest =>
+      obtain ⟨m2, i2⟩ := rest
+      simp only [hg, Prod.mk.injEq] at h
+      obtain ⟨_, h2, _⟩ := h; subst h2
+      exact getChar_db o m m2 inp i2 c hg
+  · rename_i hnot
+    cases inp with
+    | nil => simp only [Prod.mk.injEq] at h; obtain ⟨_, h2, _⟩ := h; subst h2; simp
+    | cons x xs =>
+      simp only at h
+      split at h
+      · cases hp : preprocess o m x xs with
+        | mk c rest =>
+          obtain ⟨m2, i2⟩ := rest
+          simp only [hp, Prod.mk.injEq] at h
+          obtain ⟨_, h2, _⟩ := h; subst h2
+          have hr : m.reconsume = false := by
+            cases hrr : m.reconsume with
+            | false => rfl
+            | true => simp [hrr] at hnot
+          have : getChar o m (x :: xs) = (c, m2, i2) := by simp [getChar, hr, hp]
+          exact getChar_db o m m2 _ i2 c this
+      · simp only [Prod.mk.injEq] at h; obtain ⟨_, h2, _⟩ := h; subst h2; simp
+
+theorem eatSkipLf_db (o : Opts) (m : Mach) (inp : Str) : (eatSkipLf o m inp).1.discardBom = m.discardBom := by
+  unfold eatSkipLf
+  split
+  · cases hpk : peek m inp with
+    | none => simp
+    | some c =>
+      simp only
+      split
+      · cases hg : getChar o (m.setIgnoreLf false) inp with
+        | mk c' r =>
+          obtain ⟨m2, i2⟩ := r
+          have := getChar_db o _ m2 inp i2 c' hg
+          simpa using this
+      · simp
+  · rfl
+
+theorem eat_db (o : Opts) (m m1 : Mach) (inp i1 pat : Str) (b : Option Bool)
+    (h : eat o m inp pat = (b, m1, i1)) : m1.discardBom = m.discardBom := by
+  rw [eat_eq_core] at h
+  unfold eatCore at h
+  have hf := eatSkipLf_db o m inp
+  repeat' split at h
+  all_goals
+    (simp only [Prod.mk.injEq] at h
+     obtain ⟨_, h2, _⟩ := h
+     subst h2
+     simp [hf])
+
+theorem stepMd_db (o : Opts) (m : Mach) (inp : Str) (m' : Mach)
+    (h : (stepMd o m inp).mach? = some m') : m'.discardBom = m.discardBom := by
+  unfold stepMd at h
+  cases h1 : eat o m inp kwDashDash with
+  | mk b1 r1 =>
+    obtain ⟨m1, i1⟩ := r1
+    have d1 := eat_db o m m1 inp i1 _ b1 h1
+    rw [h1] at h
+    rcases b1 with _ | _ | _
+    · simp only [R.mach?, Option.some.injEq] at h; subst h; exact d1
+    · simp only at h
+      cases h2 : eat o m1 i1 kwCdata with
+      | mk b2 r2 =>
+        obtain ⟨m2, i2⟩ := r2
+        have d2 := eat_db o m1 m2 i1 i2 _ b2 h2
+        rw [h2] at h
+        rcases b2 with _ | _ | _
+        · simp only [R.mach?, Option.some.injEq] at h; subst h; exact d2.trans d1
+        · simp only at h
+          cases h3 : eat o m2 i2 kwDoctype with
+          | mk b3 r3 =>
+            obtain ⟨m3, i3⟩ := r3
+            have d3 := eat_db o m2 m3 i2 i3 _ b3 h3
+            rw [h3] at h
+            rcases b3 with _ | _ | _ <;>
+              (simp only [R.mach?, Option.some.injEq] at h; subst h; simp [d3, d2, d1])
+        · simp only [R.mach?, Option.some.injEq] at h; subst h; simp [d2, d1]
+    · simp only [R.mach?, Option.some.injEq] at h; subst h; simp [d1]
+
+theorem stepAdn_db (o : Opts) (m : Mach) (inp : Str) (m' : Mach)
+    (h : (stepAdn o m inp).mach? = some m') : m'.discardBom = m.discardBom := by
+  unfold stepAdn at h
+  cases h1 : eat o m inp kwPublic with
+  | mk b1 r1 =>
+    obtain ⟨m1, i1⟩ := r1
+    have d1 := eat_db o m m1 inp i1 _ b1 h1
+    rw [h1] at h
+    rcases b1 with _ | _ | _
+    · simp only [R.mach?, Option.some.injEq] at h; subst h; exact d1
+    · simp only at h
+      cases h2 : eat o m1 i1 kwSystem with
+      | mk b2 r2 =>
+        obtain ⟨m2, i2⟩ := r2
+        have d2 := eat_db o m1 m2 i1 i2 _ b2 h2
+        rw [h2] at h
+        rcases b2 with _ | _ | _
+        · simp only [R.mach?, Option.some.injEq] at h; subst h; exact d2.trans d1
+        · simp only at h
+          cases h3 : getChar o m2 i2 with
+          | mk c3 r3 =>
+            obtain ⟨m3, i3⟩ := r3
+            have d3 := getChar_db o m2 m3 i2 i3 c3 h3
+            rw [h3] at h
+            cases c3 with
+            | none => simp only [R.mach?, Option.some.injEq] at h; subst h; simp [d3, d2, d1]
+            | some c3 =>
+              have := ofSig_mach _ _ _ h
+              subst this
+              rw [transChar_discardBom, d3, d2, d1]
+        · simp only [R.mach?, Option.some.injEq] at h; subst h; simp [d2, d1]
+    · simp only [R.mach?, Option.some.injEq] at h; subst h; simp [d1]
+
+/-- no step of the tokenizer loop touches `discard_bom` -/
+theorem step_discardBom (o : Opts) (m : Mach) (inp : Str) (m' : Mach)
+    (h : (step o m inp).mach? = some m') : m'.discardBom = m.discardBom := by
+  cases hcr : m.charRef with
+  | some cr =>
+    rw [step_kind_charRef o m inp cr hcr] at h
+    exact stepCharRef_db o m inp cr m' h
+  | none =>
+    cases hrk : readKind m.state with
+    | getChar =>
+      rw [step_getChar o m inp hcr hrk] at h
+      cases hgc : getChar o m inp with
+      | mk c r =>
+        obtain ⟨m1, i1⟩ := r
+        rw [hgc] at h
+        have d := getChar_db o m m1 inp i1 c hgc
+        cases c with
+        | none => simp only [contChar, R.mach?, Option.some.injEq] at h; subst h; exact d
+        | some c => have := ofSig_mach _ _ _ h; subst this; rw [transChar_discardBom, d]
+    | popExcept =>
+      rw [step_popExcept o m inp hcr hrk] at h
+      cases hgc : popExceptFrom o (setOf m.state) m inp with
+      | mk c r =>
+        obtain ⟨m1, i1⟩ := r
+        rw [hgc] at h
+        have d := popExceptFrom_db o _ m m1 inp i1 c hgc
+        cases c with
+        | none => simp only [contSet, R.mach?, Option.some.injEq] at h; subst h; exact d
+        | some c => have := ofSig_mach _ _ _ h; subst this; rw [transSet_discardBom, d]
+    | eatMd => rw [step_kind_md o m inp hcr hrk] at h; exact stepMd_db o m inp m' h
+    | eatAdn => rw [step_kind_adn o m inp hcr hrk] at h; exact stepAdn_db o m inp m' h
+
+theorem runsTo_discardBom (o : Opts) {m : Mach} {a : Str} {m1 : Mach} (hrun : RunsTo o m a m1) :
+    m1.discardBom = m.discardBom := by
+  induction hrun with
+  | @susp m0 inp0 m0' hs => exact step_discardBom o m0 inp0 m0' (by rw [hs]; rfl)
+  | @cont m0 inp0 mx ix m0' hs hr ih =>
+    exact ih.trans (step_discardBom o m0 inp0 mx (by rw [hs]; rfl))
+
 end H5V.Model.XmlTok
